@@ -294,6 +294,11 @@ int main(int argc, char** argv) {
         Vec x = jp[q]; axpy(x, mkq(1, 7), jn.L[k]);
         if (!A.g.contains_point(x) && !Bq.g.contains_point(x)) all_in = false;
       }
+      // ... and along all of them at once
+      for (size_t q = 0; q < jp.size() && all_in && !jn.L.empty(); ++q) {
+        Vec x = jp[q]; for (size_t k = 0; k < jn.L.size(); ++k) axpy(x, mkq(1, 7 + 4 * (long)k), jn.L[k]);
+        if (!A.g.contains_point(x) && !Bq.g.contains_point(x)) all_in = false;
+      }
       CHECK(exact == all_in, "union_is_grid disagrees with enumeration: " + nm);
       if (exact) CHECK(bits_subset(bits_of(jn), orb), "union claimed exact but the join has more window points: " + nm);
       CHECK(exact == subset(difference(jn, A.g), Bq.g), "two exactness criteria disagree: " + nm);
